@@ -570,6 +570,10 @@ var c50Pools = []string{
 	"中文日本語한국어漢字テストひらがな",
 	"😀💩☃❤♥★√≠≤",
 	"ａｂｃｘｎ－ＡＢＣ１２３",
+	// base letters next to combining marks, and runes whose MAPPING is a combining mark
+	// (U+0340, U+0341, U+0343; U+0344 maps to two) or an iota (U+0345): the mapped label
+	// then needs NFC composition although no input rune does on its own
+	"aeiouâêôαεηιυω\u0300\u0301\u0302\u0308\u0313\u0342\u0340\u0341\u0343\u0344\u0345\u0340\u0341",
 }
 
 const c50Specials = "ßς‌‍्­�KΩ ‎ıǆ͸\U0010ffff\u0080ẞ≠。．｡̸̧́̈٠אب"
